@@ -121,7 +121,10 @@ def realise(ctx, scn, kinds_cycle):
             if h not in idents:
                 idents[h] = (rand_identity(rng, typ=rng.choice([0xAC, 0xAC, rng.randrange(256)])), rng.choice([2, 3]))
             ident, ver = idents[h]
-            data = build(rng, ident, ip, ver)
+            # the address a module writes INTO its reply is whatever it believes (AP-mode default, stale lease ...): several hosts may advertise the
+            # same one; the device is reported under the address that answered
+            data = build(rng, ident, ip, ver, same_ip=rng.random() < 0.5) if rng.random() < 0.7 else \
+                disc.disc_reply(ver, ident["devid"], disc.disc_body("192.168.4.1", ident["port"], ident["sn"], ident["name"]), rng=rng)
         else:
             kind = next(kinds_cycle)
             if kind == "xml_port_refused":
